@@ -14,12 +14,20 @@ CVC5 = shutil.which("cvc5") or "/usr/bin/cvc5"
 
 
 def check(assumptions, goal, timeout_ms=20000) -> smt.Result:
-    text = smt.to_smt2(assumptions, goal)
-    text = "(set-logic ALL)\n" + text
-    t0 = time.time()
-    with tempfile.NamedTemporaryFile("w", suffix=".smt2", delete=False, dir=os.environ.get("XDG_RUNTIME_DIR") or "/var/tmp") as f:
-        f.write(text)
+    with tempfile.NamedTemporaryFile("w", suffix=".smt2", delete=False, dir=os.environ.get("PYVC_TMP") or "/var/tmp") as f:
+        f.write("(set-logic ALL)\n" + smt.to_smt2(assumptions, goal))
         path = f.name
+    try:
+        return check_file(path, timeout_ms)
+    finally:
+        try:
+            os.unlink(path)
+        except OSError:
+            pass
+
+
+def check_file(path, timeout_ms=20000) -> smt.Result:
+    t0 = time.time()
     try:
         p = subprocess.run([CVC5, "--strings-exp", f"--tlimit={timeout_ms}", path],
                            capture_output=True, text=True, timeout=timeout_ms / 1000 + 10)
@@ -28,14 +36,61 @@ def check(assumptions, goal, timeout_ms=20000) -> smt.Result:
     except Exception as ex:          # timeouts, parse errors: undecided, never a verdict
         ans = "unknown"
         out = [str(ex)]
-    finally:
-        try:
-            os.unlink(path)
-        except OSError:
-            pass
     dt = time.time() - t0
     if ans == "unsat":
         return smt.Result("unsat", dt, "cvc5")
     if ans == "sat":
         return smt.Result("sat", dt, "cvc5")
     return smt.Result("unknown", dt, "cvc5", reason=" ".join(out)[:200])
+
+
+def core_file(path, n_assumptions, timeout_ms=60000):
+    """indices (assertion order in the file) of an unsat core found by cvc5, or None.  z3 prints one (assert ...) per
+    assertion, in order: they are named; the last one is the negated goal and stays unnamed."""
+    import re
+    text = open(path).read()
+    out, pos, n = [], 0, 0
+    while True:
+        k = text.find("(assert", pos)
+        if k < 0:
+            out.append(text[pos:])
+            break
+        out.append(text[pos:k])
+        depth, j = 0, k
+        while True:
+            c = text[j]
+            if c == "(":
+                depth += 1
+            elif c == ")":
+                depth -= 1
+                if depth == 0:
+                    break
+            elif c == '"':
+                j = text.index('"', j + 1)
+                while text[j + 1:j + 2] == '"':      # escaped quote in SMT-LIB strings
+                    j = text.index('"', j + 2)
+            elif c == "|":
+                j = text.index("|", j + 1)
+            j += 1
+        body = text[k + len("(assert"):j].strip()
+        out.append(f"(assert (! {body} :named hint_a{n}))" if n < n_assumptions else text[k:j + 1])
+        n += 1
+        pos = j + 1
+    text = "(set-option :produce-unsat-cores true)\n" + "".join(out).replace("(check-sat)", "(check-sat)\n(get-unsat-core)")
+    named = path + ".named.smt2"
+    with open(named, "w") as f:
+        f.write(text)
+    try:
+        p = subprocess.run([CVC5, "--strings-exp", f"--tlimit={timeout_ms}", named], capture_output=True, text=True,
+                           timeout=timeout_ms / 1000 + 10)
+        lines = p.stdout.strip().splitlines()
+        if not lines or lines[0].strip() != "unsat":
+            return None
+        return sorted(int(m) for m in re.findall(r"hint_a(\d+)", " ".join(lines[1:])))
+    except Exception:
+        return None
+    finally:
+        try:
+            os.unlink(named)
+        except OSError:
+            pass
